@@ -287,18 +287,26 @@ fn main() {
         let stop = stop.clone();
         filler_handles.push(std::thread::spawn(move || {
             FILLER.with(|f| f.set(true));
-            let root = Span::root(format!("filler{}", f), SpanContext::new(TraceId(0xF111 + f as u128), SpanId(1)));
+            // bounded traces: a root, a burst of events, finish (the events of an open span are
+            // parked in the collector until it finishes, so one endless root would grow without bound)
+            let mut k = 0u128;
             while !stop.load(Ordering::Relaxed) {
+                let root = Span::root(format!("filler{}", f), SpanContext::new(TraceId(0xF111_0000 + ((f as u128) << 64) + k), SpanId(1)));
+                k += 1;
                 for _ in 0..2000 {
                     root.add_event(Event::new("f"));
                 }
+                if k % 7 == 0 {
+                    root.cancel();
+                }
+                drop(root);
                 std::thread::sleep(Duration::from_micros(300));
             }
-            // let the ring drain before the last signals are sent: a commit parked when the thread
-            // exits with a full ring may legitimately be lost
+            // let the ring drain before the thread exits: a commit parked when a thread exits with
+            // a full ring may legitimately be lost
             wait_cycles(3);
-            root.cancel();
-            drop(root);
+            let last = Span::root(format!("filler{}", f), SpanContext::new(TraceId(0xF111_FFFF), SpanId(1)));
+            drop(last);
             wait_cycles(2);
         }));
     }
